@@ -545,6 +545,43 @@ pub fn c10_out_nd_strided_n3() {
     out_nd_strided::<3, 6>();
 }
 
+/// the same with a REVERSED out view (step -1: contiguous in memory, but slot i of the view is memory slot N-1-i) — added after
+/// seeded change C02-m5 (a "contiguous buffer" fast path writing in memory order)
+pub fn out_nd_reversed<const N: usize>() {
+    let xs: [i32; N] = kani::any();
+    let v: Vec<i32> = xs.to_vec();
+    let w = any_window::<N>(1);
+    let ret: Vec<(Option<i32>, i32)> = v.rolling_apply(w, |rm, x| (rm, x), None).unwrap();
+    let mut big: Array1<MaybeUninit<(Option<i32>, i32)>> = Array1::from_elem(N, MaybeUninit::new((None, -77)));
+    {
+        let view = big.slice_mut(s![..;-1]);
+        let r = v.rolling_apply::<Array1<(Option<i32>, i32)>, _, _>(w, |rm, x| (rm, x), Some(view));
+        assert!(r.is_none(), "rolling_apply out: nothing returned");
+    }
+    let mut i = 0;
+    while i < N {
+        let got = unsafe { big[N - 1 - i].assume_init() };
+        assert!(got == ret[i], "reversed ndarray out: slot i of the view holds result i");
+        i += 1;
+    }
+    kani::cover!(w < N, "window shorter than the series");
+}
+
+#[kani::proof]
+#[kani::stub(std::fmt::format, crate::util::fmt_stub)]
+#[kani::unwind(10)]
+pub fn c10_out_nd_reversed_n2() {
+    out_nd_reversed::<2>();
+}
+
+#[cfg(feature = "thorough")]
+#[kani::proof]
+#[kani::stub(std::fmt::format, crate::util::fmt_stub)]
+#[kani::unwind(10)]
+pub fn c10_out_nd_reversed_n3() {
+    out_nd_reversed::<3>();
+}
+
 /// second series LONGER than the first (it passes the drivers' length assert): every unchecked index still has to stay
 /// below the length of the FIRST series and every output slot is written once (added after seeded change C10-m1)
 pub fn long2<const N: usize, const M: usize>() -> bool {
